@@ -118,4 +118,48 @@ theorem interpPrint_hand (cl : Nat) (hcl : 1 ≤ cl) (wd sw : List Rune → Nat)
     · exact absurd j1 hw
     · exact Or.inr ⟨by rw [j, hg], hw⟩
 
+/-! ### the run loop over interpreted bodies = the model's run loop -/
+
+/-- What is needed of a `readRune` body / a `print` body. -/
+def ReadOk (rbody : List RStmt) : Prop := ∀ rd, readRuneI rbody rd = some (readRune rd)
+def PrintOk (pbody : List RStmt) : Prop := ∀ cl, 1 ≤ cl → ∀ fuel r rd, ∃ w,
+  interpPrint cl (fun _ => 0) (fun _ => 0) fuel r pbody rd = some ((printLoop cl fuel rd [r]).1, w, (printLoop cl fuel rd [r]).2)
+
+theorem deliverI_eq (pbody : List RStmt) (hp : PrintOk pbody) (cl : Nat → Nat) (start : Nat) (out : List Seq) (rd : Rd) :
+    deliverI pbody cl start out rd = some (deliver cl start out rd) := by
+  induction out generalizing rd with
+  | nil => rfl
+  | cons x rest ih =>
+    cases x
+    case print r =>
+      obtain ⟨w, hw⟩ := hp (max 1 (cl start)) (by omega) (rd.remaining + 1) r rd
+      simp only [deliverI, deliver, hw, ih]
+    all_goals simp only [deliverI, deliver, ih]
+
+theorem runLoopI_eq (rbody pbody : List RStmt) (hr : ReadOk rbody) (hp : PrintOk pbody) (T : Model.Parser.Table)
+    (cl : Nat → Nat) (fuel : Nat) (s : PState) (rd : Rd) :
+    runLoopI rbody pbody T cl fuel s rd = some (runLoop T cl fuel s rd) := by
+  induction fuel generalizing s rd with
+  | zero => rfl
+  | succ n ih =>
+    simp only [runLoopI, runLoop, hr rd]
+    cases hrr : readRune rd with
+    | mk ro rd1 =>
+      cases ro with
+      | none => rfl
+      | some r =>
+        simp only [deliverI_eq pbody hp]
+        cases hd : deliver cl rd.pos (Model.Parser.step T s (.rune r)).out rd1 with
+        | mk items rd2 =>
+          simp only
+          split
+          · rfl
+          · simp only [ih]
+
+theorem runChunksI_eq (rbody pbody : List RStmt) (hr : ReadOk rbody) (hp : PrintOk pbody) (T : Model.Parser.Table)
+    (cl : Nat → Nat) (chunks : List (List Nat)) :
+    runChunksI rbody pbody T cl chunks = some (runChunks T cl chunks) := by
+  simp only [runChunksI, runChunks]
+  exact runLoopI_eq rbody pbody hr hp T cl _ _ _
+
 end VaxisModel.Lemmas.ParserReaderInterp
